@@ -96,6 +96,8 @@ pub struct Driver {
     expect_err: bool,
     /// appended to every written value (multi-tree runs: makes the trees' data differ)
     pub vsuffix: Option<u8>,
+    /// largest GC watermark passed to any maintenance call so far
+    max_wm: SeqNo,
 }
 
 fn ty_code(t: ValueType) -> &'static str {
@@ -141,6 +143,7 @@ impl Driver {
             list_files: true,
             expect_err: false,
             vsuffix: None,
+            max_wm: 0,
         }
     }
 
@@ -213,6 +216,17 @@ impl Driver {
             Wm::MinSnapM1 => min.saturating_sub(1),
             Wm::Abs(n) => *n,
         }
+    }
+
+    /// explicit-seqno reads are only meaningful for snapshots the usage protocol allows:
+    /// not below a GC watermark that was already used, and resolvable in the history
+    fn explicit_snapshot_ok(&self, s: SeqNo) -> bool {
+        if s < self.max_wm {
+            return false;
+        }
+        let any = self.tree.as_ref().expect("tree");
+        let hist = lsm_tree::verif::history(index_tree(any));
+        s == 0 || hist.iter().any(|sv| sv.seqno < s)
     }
 
     fn snap_seqno(&self, s: &Option<u32>) -> Option<SeqNo> {
@@ -301,6 +315,7 @@ impl Driver {
             }
             Op::Flush(w) => {
                 let w = self.wm(w);
+                self.max_wm = self.max_wm.max(w);
                 let _ = writeln!(self.out, "WM {w}");
                 let r = {
                     let t = self.tree();
@@ -311,6 +326,7 @@ impl Driver {
             }
             Op::FlushActive(w) => {
                 let w = self.wm(w);
+                self.max_wm = self.max_wm.max(w);
                 let _ = writeln!(self.out, "WM {w}");
                 let r = self
                     .tree()
@@ -320,6 +336,7 @@ impl Driver {
             }
             Op::Leveled { l0, target, w } => {
                 let w = self.wm(w);
+                self.max_wm = self.max_wm.max(w);
                 let _ = writeln!(self.out, "WM {w}");
                 let s = Arc::new(
                     lsm_tree::compaction::Leveled::default()
@@ -331,6 +348,7 @@ impl Driver {
             }
             Op::Major { target, w } => {
                 let w = self.wm(w);
+                self.max_wm = self.max_wm.max(w);
                 let _ = writeln!(self.out, "WM {w}");
                 let r = self
                     .tree()
@@ -360,6 +378,7 @@ impl Driver {
             }
             Op::Fifo { limit, ttl, w } => {
                 let w = self.wm(w);
+                self.max_wm = self.max_wm.max(w);
                 let _ = writeln!(self.out, "WM {w}");
                 let _ = writeln!(self.out, "NOW {}", self.clock);
                 let s = Arc::new(lsm_tree::compaction::Fifo::new(*limit, *ttl));
@@ -423,6 +442,7 @@ impl Driver {
                 // ids may be handed out again by the new session
                 self.dumped_tables.clear();
                 self.dumped_mts.clear();
+                self.max_wm = 0;
                 // fresh counters, restarted above the highest persisted seqno (as documented
                 // for recovery); decided after open
                 self.seqno = SequenceNumberCounter::default();
@@ -463,6 +483,9 @@ impl Driver {
                 }
             }
             Op::GetMax(k) => self.get(k, SeqNo::MAX),
+            Op::GetAt(_, s) | Op::RangeAt(_, _, _, s) if !self.explicit_snapshot_ok(*s) => {
+                let _ = writeln!(self.out, "SKIP snapshot-not-allowed");
+            }
             Op::GetAt(k, s) => self.get(k, *s),
             Op::RangeAt(lo, hi, pulls, s) => {
                 let it = self
